@@ -93,3 +93,34 @@ Definition spec_time (now drift fdrift : Z) (doc : option Z) : Z :=
   end.
 Definition ms_of (t : Z) : Z := t / 1000000.
 Close Scope Z_scope.
+
+(* ---------------------------------------------------------------- the ES time format, declaratively
+   YYYY-MM-DD hh:mm:ss[.f+] : decimal digits, month 1..12, day 1..31 (a day beyond the month's end
+   is normalised by time.Date, as in the code), hour <= 23, minute, second <= 59; any number >= 1
+   of fraction digits, those beyond the ninth are dropped. *)
+Definition dig (d : N) : Prop := (d < 10)%N.
+Definition ch (d : N) : N := (48 + d)%N.
+
+Fixpoint dval_acc (ds : list N) (acc : N) : N :=
+  match ds with [] => acc | d :: r => dval_acc r (acc * 10 + d)%N end.
+Definition dval (ds : list N) : N := dval_acc ds 0%N.
+
+Definition frac_ns (fr : list N) : N :=
+  (dval (firstn 9 fr) * 10 ^ N.of_nat (9 - length (firstn 9 fr)))%N.
+
+Definition frac_text (fr : list N) : list N :=
+  match fr with [] => [] | _ => 46%N :: map ch fr end.
+
+Definition es_text (y3 y2 y1 y0 m1 m0 d1 d0 h1 h0 i1 i0 s1 s0 : N) (fr : list N) : list N :=
+  ch y3 :: ch y2 :: ch y1 :: ch y0 :: 45%N :: ch m1 :: ch m0 :: 45%N :: ch d1 :: ch d0 :: 32%N ::
+  ch h1 :: ch h0 :: 58%N :: ch i1 :: ch i0 :: 58%N :: ch s1 :: ch s0 :: frac_text fr.
+
+Definition es_form (t : list N) (inst : Z) : Prop :=
+  exists y3 y2 y1 y0 m1 m0 d1 d0 h1 h0 i1 i0 s1 s0 fr,
+    Forall dig [y3; y2; y1; y0; m1; m0; d1; d0; h1; h0; i1; i0; s1; s0] /\ Forall dig fr /\
+    t = es_text y3 y2 y1 y0 m1 m0 d1 d0 h1 h0 i1 i0 s1 s0 fr /\
+    (1 <= 10 * m1 + m0 <= 12 /\ 1 <= 10 * d1 + d0 <= 31 /\
+     10 * h1 + h0 <= 23 /\ 10 * i1 + i0 <= 59 /\ 10 * s1 + s0 <= 59)%N /\
+    inst = date_nanos (Z.of_N (1000 * y3 + 100 * y2 + 10 * y1 + y0)) (Z.of_N (10 * m1 + m0))
+                      (Z.of_N (10 * d1 + d0)) (Z.of_N (10 * h1 + h0)) (Z.of_N (10 * i1 + i0))
+                      (Z.of_N (10 * s1 + s0)) (Z.of_N (frac_ns fr)).
